@@ -348,12 +348,27 @@ class ComposedNode(ConfigNode):
 
 
     def __getstate__(self):
+        # everything, both views included: the child map travels with the attributes, the content of the
+        # built-in list/dict (normally the very same objects, in the same order) next to it
         state = self.__dict__.copy()
-        del state['_children']
+        state['_children'] = dict(self._children) # a shallow copy gets a child map of its own
+        if isinstance(self, list):
+            state['__builtin_items__'] = list(list.__iter__(self))
+        elif isinstance(self, dict):
+            state['__builtin_items__'] = list(dict.items(self))
         return state
 
     def __setstate__(self, state):
+        # no mutator is involved: nodes are put back exactly as they were (a mutator would adopt them again,
+        # i.e. re-derive their inherited flags from this parent, and would re-validate their names)
+        state = dict(state)
+        items = state.pop('__builtin_items__', None)
         self.__dict__.update(state)
+        if items is not None:
+            if isinstance(self, list):
+                list.extend(self, items)
+            else:
+                dict.update(self, items)
 
     @staticmethod
     def _recreate(cls):
@@ -362,14 +377,7 @@ class ComposedNode(ConfigNode):
         return new
 
     def __reduce__(self):
-        state = self.__getstate__()
-        lit = None
-        dit = None
-        if isinstance(self, list):
-            lit = iter(self)
-        elif isinstance(self, dict):
-            dit = iter(self.items())
-        return ComposedNode._recreate, (type(self), ), state, lit, dit
+        return ComposedNode._recreate, (type(self), ), self.__getstate__()
 
     def _get_child_kwargs(self, child=None):
         ret = {}
